@@ -361,6 +361,9 @@ func Build(w *WF, rt *Runtime) *sp.Workflow {
 			if n.Cores > 0 {
 				p.CoresPerTask = n.Cores
 			}
+			if n.ZeroCores {
+				p.CoresPerTask = 0
+			}
 			if n.Prepend != "" {
 				p.Prepend = n.Prepend
 			}
